@@ -544,3 +544,6 @@ fn c13_raw_message_cross_check() {
     kani::cover!(y == 0 && q != a && q < 4 && a < 4, "mismatch rejected");
 }
 
+
+// (A harness for the `want` list visitor through serde's SeqDeserializer did not terminate in 25 min
+// - String allocation per element - and was removed; the native-validation run covers it by sampling.)
